@@ -30,6 +30,9 @@ def run(run):
         # with that d (C17 rule O17.2: None => no-timeout primitive, Some(d) => timeout primitive with d)
         from rules import c17
         c17.dispatch(run, f)
+        # ... and the helper thread really lets that deadline fire: current-thread runtime with the timer enabled, entered
+        # through Runtime::block_on on the timeout wrapper (C17 rule O17.3)
+        c17.helper_shape(run, f, sp)
 
 
 def wrapper_shape(run, f, sp):
